@@ -383,6 +383,40 @@ def stepM (ff : UInt64 → Option Bytes) (d : DV) (ops obs : List String) : Stri
   | none, some k => return s!"KNOWN {k}{div}"
   | none, none => return (if div.isEmpty then "OK" else s!"DIVERGE model={(diverge.getD "")}")
 
+/-! ### the hypotheses of theorem `Props.C08.indistinguishable`, executable -/
+
+partial def docOKb : Q → Bool
+  | .field k => !isExtKey k
+  | .has (.str k) => !isExtKey k
+  | .pipe a b => docOKb a && docOKb b
+  | .comma a b => docOKb a && docOKb b
+  | .arrC q => docOKb q
+  | .objC k v => docOKb k && docOKb v
+  | .bin _ a b => docOKb a && docOKb b
+  | .ite c a b => docOKb c && docOKb a && docOKb b
+  | .alt a b => docOKb a && docOKb b
+  | .try q => docOKb q
+  | _ => true
+
+def keysSortedB : List Bytes → Bool
+  | a :: b :: rest => bytesLt a b && keysSortedB (b :: rest)
+  | _ => true
+
+partial def goodDVb : DV → Bool
+  | .struct fs => keysSortedB (fs.map (·.1)) && fs.all (fun f => goodDVb f.2)
+  | .array es => es.all goodDVb
+  | .scalar k sym y =>
+    match scalarValue k sym with
+    | .raw bs => y || validUTF8 bs
+    | .j (.int i) => i != minInt
+    | _ => true
+
+def modeStrict : Mode := { impl := false, dNullKey := false }
+def modeKnown : Mode := { impl := false, kStrIdx := true, kObjKey := true, kMinInt := true }
+
+/-- drop the decode-value marks only (no sanitising, no reordering): the `plainify` of the theorem -/
+def stripMarks (s : String) : String := " ".intercalate ((words s).filter (· != "@"))
+
 /-! ### Q lines -/
 
 def stepQ (ff : UInt64 → Option Bytes) (d : DV) (q : Q) (obs : String) : String :=
@@ -421,8 +455,22 @@ def stepQ (ff : UInt64 → Option Bytes) (d : DV) (q : Q) (obs : String) : Strin
       else if isUnmodelled mSpec || isUnmodelled mPlain then none
       else if normObs mSpec != normObs mPlain then none
       else some s!"v|q = {direct} and v|tovalue|q = {plain} differ outside the documented exceptions"
+    -- theorem `indistinguishable`: where its hypotheses hold (evaluated here on the model), its
+    -- conclusion must hold of the IMPLEMENTATION's observations: same outputs after tovalue, same
+    -- order, same ending — no sanitising, no order normalisation
+    let thmApplies := docOKb q && goodDVb d &&
+      sRes (q.eval modeKnown ff (wrap d)) == mSpec && mSpec == sRes (q.eval modeStrict ff (wrap d)) &&
+      !isUnmodelled mSpec
+    let p3 : Option String :=
+      if thmApplies && stripMarks direct != plain then
+        some s!"theorem indistinguishable: hypotheses hold but v|q = {direct} and v|tovalue|q = {plain}"
+      else none
     match p1, p2 with
-    | none, none => if div.isEmpty then (if isUnmodelled mImpl || isUnmodelled mPlain || isUnmodelled mSpec then "OK model-declined-float-or-number-text" else "OK") else s!"DIVERGE model={(d1.getD (d2.getD ""))}"
+    | none, none =>
+      (match p3 with
+       | some f => s!"PROPFAIL {f}{div}"
+       | none =>
+        if div.isEmpty then (if isUnmodelled mImpl || isUnmodelled mPlain || isUnmodelled mSpec then "OK model-declined-float-or-number-text" else (if thmApplies then "OK thm" else "OK")) else s!"DIVERGE model={(d1.getD (d2.getD ""))}")
     | some f, _ =>
       let ks := knownModes.map (fun km => (km.1, sRes (q.eval km.2 ff (wrap d))))
       (match ks.find? (fun kr => kr.2 == direct) with
